@@ -36,6 +36,16 @@ CLAIMED = {
          'compared but its entry theorem is not yet proved; to_df rows are checked by the Python oracle only; the library-managed '
          'index descriptors are modelled and compared but are not part of the invariant.',
          'DESIGN.md section 7, C10'),
+ 'C09': ('Coq proofs about the bootstrap model (draw->group bijection, multiplicity, alignment, provenance of every entry '
+         'for every draw list) + in-Coq correspondence with recorded / scripted NumPy draws',
+         'Theorems (axiom-free): the draw-to-group map is a bijection onto the distinct groups; the sample contains, for each '
+         'drawn label with multiplicity, all members of the group with all descriptor values; conditions stay in source order; '
+         'a prediction resampled with the returned labels is aligned with the sample; for every draw list each entry is the '
+         'source value of its RDM and its two original conditions, NaN exactly for copies (C10 invariant). Correspondence: '
+         'bootstrap_sample / _rdm / _pattern run on tagged objects with np.random.randint recorded or scripted (exhaustive for 3 groups).',
+         'Uniformity of NumPy randint is trusted (chi-square supporting test only); draws are captured by replacing '
+         'numpy.random.randint in the harness process.',
+         'DESIGN.md section 7, C09'),
 }
 NA_REASON = 'check not built yet in this round (work in progress; see DESIGN.md section 7)'
 
